@@ -26,10 +26,10 @@ open Lean Elab Tactic Meta in
 /-- succeeds iff the goal is `OkSat P x` with `x` an `if` or a `bind` of an `if` (a cheap syntactic
 guard in front of `split_ifs`, which is slow to fail on goals without any `if`) -/
 elab "guard_ite_head" : tactic => do
-  let g ← instantiateMVars (← getMainTarget)
+  let g := (← instantiateMVars (← getMainTarget)).consumeMData
   let args := g.getAppArgs
   if args.size = 4 then
-    let x := args[3]!
+    let x := (args[3]!).consumeMData
     if x.isAppOf ``ite then return
     if x.isAppOf ``Res.bind then
       let bargs := x.getAppArgs
